@@ -459,7 +459,87 @@ func partB() {
 			t.DelRoute("all")
 		}
 	}
+	partBUpdates(t)
 	cnt.sample(map[string]interface{}{"part": "B", "filters": len(siteFilters), "names": siteNames, "sites": []string{"blacklist", "route", "destination", "aggregation", "aggregate-routing"}})
+}
+
+// partBUpdates: a filter changed at run time (modRoute / modDest: only the named options change, the
+// others keep their value) must mean the merged filter. Every single-option update of every start
+// filter, on a route and on a destination, judged on all names.
+func partBUpdates(t *table.Table) {
+	starts := []ref.Filter{
+		{},
+		{Sub: "b"},
+		{NotSub: "c"},
+		{Prefix: "a", NotPrefix: "ac", Sub: "b", NotSub: "c", Regex: "b", NotRegex: "^b"},
+		{Prefix: "b", NotPrefix: "b.", Sub: "c", NotSub: "a", Regex: "c$", NotRegex: "^a"},
+	}
+	plain := []string{"", "a", "b", "c"}
+	rex := []string{"", "^a", "b$", "c"}
+	opts := []struct {
+		name string
+		vals []string
+		set  func(f *ref.Filter, v string)
+	}{
+		{"prefix", plain, func(f *ref.Filter, v string) { f.Prefix = v }},
+		{"notPrefix", plain, func(f *ref.Filter, v string) { f.NotPrefix = v }},
+		{"sub", plain, func(f *ref.Filter, v string) { f.Sub = v }},
+		{"notSub", plain, func(f *ref.Filter, v string) { f.NotSub = v }},
+		{"regex", rex, func(f *ref.Filter, v string) { f.Regex = v }},
+		{"notRegex", rex, func(f *ref.Filter, v string) { f.NotRegex = v }},
+	}
+	n := 0
+	for _, st := range starts {
+		for _, where := range []string{"route", "destination"} {
+			for _, o := range opts {
+				for _, v := range o.vals {
+					n++
+					key := fmt.Sprintf("u%d", n)
+					rf, df := ref.Filter{}, ref.Filter{}
+					if where == "route" {
+						rf = st
+					} else {
+						df = st
+					}
+					d := newDest(key, df)
+					r, _ := route.NewSendAllMatch(key, mk(rf), []*destination.Destination{d})
+					t.AddRoute(r)
+					var err error
+					if where == "route" {
+						err = t.UpdateRoute(key, map[string]string{o.name: v})
+					} else {
+						err = t.UpdateDestination(key, 0, map[string]string{o.name: v})
+					}
+					merged := st
+					o.set(&merged, v)
+					c, cerr := merged.Compile()
+					if cerr != nil {
+						panic(cerr)
+					}
+					what := fmt.Sprintf("{%s} updated with %s=%q", st, o.name, v)
+					if err != nil {
+						siteViolation("update "+where, merged, "-", what, "the update was refused: "+err.Error())
+						t.DelRoute(key)
+						continue
+					}
+					for _, nm := range siteNames {
+						line := nm + " 1 2"
+						want := c.Match([]byte(nm))
+						d0 := destDrops(d)
+						t.Dispatch([]byte(line))
+						d.Flush()
+						got := destDrops(d)-d0 == 1
+						cnt.add(1)
+						cnt.nt("B6:" + where + merged.String() + fmt.Sprint(want))
+						if got != want {
+							siteViolation("update "+where, merged, nm, line, fmt.Sprintf("after %s: delivered=%v, the merged filter {%s} on the name says %v", what, got, merged, want))
+						}
+					}
+					t.DelRoute(key)
+				}
+			}
+		}
+	}
 }
 
 // ---------------------------------------------------------------------------
